@@ -164,6 +164,9 @@ def walk_exprs(e):
     elif k == "calln":
         for x in e["as"]:
             yield from walk_exprs(x)
+    elif k in ("callh", "fcall"):
+        for x in e["as"]:
+            yield from walk_exprs(x)
     elif k == "pipe":
         yield from walk_exprs(e["x"])
         for x in e["as"]:
